@@ -27,6 +27,7 @@ Theorem C02_rules_in_order : forall c rec sn fname fv vns1 vns2 b,
   on_rules c rec sn fname fv (vns1 ++ vns2) b =
   (b1 <- on_rules c rec sn fname fv vns1 b ;; on_rules c rec sn fname fv vns2 b1).
 Proof. exact on_rules_app. Qed.
+Print Assumptions C02_rules_in_order.
 Theorem C02_fields_in_order : forall c rec sn cus fs1 fs2 b,
   on_fields c rec sn cus (fs1 ++ fs2) b = (b1 <- on_fields c rec sn cus fs1 b ;; on_fields c rec sn cus fs2 b1).
 Proof. exact on_fields_app. Qed.
@@ -50,6 +51,7 @@ Print Assumptions C02_rule_contract.
 (* a group yields at most one clause *)
 Theorem C02_group_once : forall ms, (length (eval_group ms) <= 1)%nat.
 Proof. exact eval_group_once. Qed.
+Print Assumptions C02_group_once.
 
 (* layout: a clause text is  "path" input "echo", <label> <message> ; clauses are joined by the
    separator by the caller (errors.New(strings.TrimSuffix(buf, ErrEndFlag))) *)
@@ -91,6 +93,7 @@ Print Assumptions C02_struct_valid_exact.
 (* the order is a strict total order on distinct addresses, so L is unique *)
 Theorem C02_order_strict : (forall a, ~ lex_lt a a) /\ (forall a b d, lex_lt a b -> lex_lt b d -> lex_lt a d).
 Proof. split; [exact lex_lt_irrefl|exact lex_lt_trans]. Qed.
+Print Assumptions C02_order_strict.
 
 (* non-vacuity: a struct with a violated scalar rule and a required slice of structs, the second
    element violating twice: the resolving addresses and what the entry point returns *)
